@@ -13,11 +13,11 @@ def run(tier, seed):
         'event = advance by one of {1 ms, timeout/2, timeout, 1 s, initial period, sync period, 2 x sync period} then loop() with the reference answering {ready+valid, ready+valid(+3 s), not ready, ready+invalid}',
         'time keeping is judged only while consecutive loop() calls are <= 64,536 ms apart (C13 bound); a valid answer equal to the current reading is a no-op for the phase (see C13 known finding)',
         'unsigned long is 64-bit on this host: 32-bit millis() wrap of mRequestStartMillis/mLastSyncMillis is approximated by one configuration starting 4.3 s below 2^32 only',
-        'the state space is infinite in time (relative offsets grow), so exploration is bounded by depth and a 400k-state cap per configuration; both are reported',
+        'canonical state: every time quantity relative to now and capped just above the largest threshold it is compared with, which makes the state space finite without merging states that differ in any future verdict; with the 1 ms step it is still too large, so that exploration is depth-bounded (400k-state cap per configuration); a second exploration without the 1 ms step runs to fixpoint where it fits under the state cap',
     ]
     return rep.finish(exhaustive=False, extra={
-        'states': c.get('states', 0), 'transitions': c.get('transitions', 0), 'traces_validated_against_impl': c.get('executions', 0),
-        'rule': '8 (syncPeriod, initialPeriod, timeout) configurations x 4 wirings; BFS over event sequences with canonical-state deduplication (implementation FSM fields relative to now + reference-model obligations) to depth %s' % c.get('max_depth'),
+        'states': c.get('states', 0) + c.get('coarse_states', 0), 'transitions': c.get('transitions', 0) + c.get('coarse_transitions', 0), 'traces_validated_against_impl': c.get('executions', 0),
+        'rule': '8 (syncPeriod, initialPeriod, timeout) configurations x 4 wirings; BFS over event sequences with canonical-state deduplication (implementation FSM fields relative to now + reference-model obligations) to depth %s; then the same configurations over the alphabet without the 1 ms step, explored until the (finite, capped) state space is exhausted or a state cap is hit: %d of %d configurations reached the fixpoint (all schedules of any length over that alphabet)' % (c.get('max_depth'), c.get('coarse_configs_to_fixpoint', 0), c.get('configs', 0)),
     })
 
 def replay(path):
